@@ -7,6 +7,7 @@ pub use iter::{
     ResolverContext,
     ResolverNode,
     BankData,
+    MAX_POSITION,
 };
 
 mod constant;
